@@ -4,6 +4,7 @@ CONSTANTS
   DefDir = 493
   MaxEntries = 2
   MaxComps = 3
+  Diverge = FALSE
   NameSet = "full"
 SPECIFICATION Spec
 INVARIANT OutsideUntouched
